@@ -228,7 +228,7 @@ func Child(c *run.Ctx, name string) {
 	if unattributed > 0 {
 		c.Violation("unattributed-rows", fmt.Sprintf("%d sample rows carry a fingerprint for which no series row / label document with a stream id was produced", unattributed), map[string]any{"cfg": cfg})
 	}
-	w.Server.Close()
+	w.Shutdown()
 }
 
 func shapeOf(it *item) string {
